@@ -1,6 +1,7 @@
 package routers
 
 import (
+	"errors"
 	"fmt"
 	"strings"
 
@@ -245,6 +246,12 @@ func (r *SwitchRouter) UnmarshalJSON(data []byte) error {
 	e := &switchRouterEnvelope{}
 	if err := utils.UnmarshalAndValidate(data, e); err != nil {
 		return err
+	}
+
+	for _, c := range e.Cases {
+		if c == nil {
+			return errors.New("cases can't contain null values")
+		}
 	}
 
 	r.operand = e.Operand
